@@ -19,11 +19,16 @@ Ftp::ParseIpPort(const char *buf, const char *forceIp, Ip::Address &addr)
 {
     int h1, h2, h3, h4;
     int p1, p2;
+    int parsed = 0;
     // field widths keep out-of-range components from overflowing the conversion
-    const int n = sscanf(buf, "%3d,%3d,%3d,%3d,%3d,%3d",
-                         &h1, &h2, &h3, &h4, &p1, &p2);
+    const int n = sscanf(buf, "%3d,%3d,%3d,%3d,%3d,%3d%n",
+                         &h1, &h2, &h3, &h4, &p1, &p2, &parsed);
 
     if (n != 6 || p1 < 0 || p2 < 0 || p1 > 255 || p2 > 255)
+        return false;
+
+    // the width limit must not hide the rest of an over-long last component
+    if (xisdigit(buf[parsed]))
         return false;
 
     if (h1 < 0 || h2 < 0 || h3 < 0 || h4 < 0 || h1 > 255 || h2 > 255 || h3 > 255 || h4 > 255)
